@@ -2,6 +2,7 @@
 and formatting are an inventoried set; every Parser::take::<T> is preceded on every path by a test
 that the next terminal's kind is T::KIND; second look-ahead only after a non-EOF test; the parser's
 loops and recursion make progress on every terminal kind)."""
+import json
 import os
 import re
 from collections import Counter, defaultdict, deque
@@ -503,82 +504,105 @@ def _progress(ctx, names):
     LK = sorted({st[2][4] for _, _, st in tkf.stmts() if st[0] == "a" and st[2][0] == "agg" and st[2][1] == "adt"
                  and st[2][2].endswith("kind::SyntaxKind")})
     ctx.floor("terminal kinds the lexer can produce", len(LK), 60)
-    ppf = {p: f for p, f in pf.items() if p.startswith(PARSER)}
-    callers = defaultdict(set)
-    for p, f in ppf.items():
-        for c in f.calls():
-            if c.path in ppf:
-                callers[c.path].add(p)
-    cand = [p for p, f in ppf.items() if any((c.target is None and A.is_panic_call(c)) or c.name() in ("unwrap", "expect") for c in f.calls())]
-    ctx.floor("parser routines with an explicit panic, unwrap or expect", len(cand), 8)
-    P = {}
-    work = deque(sorted(cand))
-    while work:
-        g = work.popleft()
-        if g in P or last_seg(g) == "take":
-            continue
-        ks = set()
-        for cx in contexts[g]:
-            for k in LK:
-                if ("!", False) in ai.outcomes(g, k, cx[0], cx[1]):
-                    ks.add(k)
-        P[g] = ks
-        if ks:
-            for q in callers[g]:
-                if q not in P:
-                    work.append(q)
-    panicking = {g: ks for g, ks in P.items() if ks}
-    consumes = {}
-
-    def may_consume(f, c):
-        """Can the call move the token window?  (`&mut Parser` receiver and, for routines of the parser, a summary
-        that consumes for some kind and context)"""
-        if c.callee.get("r") == "ptr":
-            return True
-        if not any(op_local(a) is not None and (f.local_ty(op_local(a)) or "").startswith("&mut " + PARSER) for a in c.args):
-            return False
-        g = c.path
-        if g not in pf:
-            return True
-        if g not in consumes:
-            consumes[g] = any(cons for cx in contexts[g] for k in LK for _, cons in ai.outcomes(g, k, cx[0], cx[1]))
-        return consumes[g]
-    roots = [q for q in ppf if last_seg(q) in ("parse_syntax_file", "parse_file_expr", "parse_token_stream", "parse_token_stream_expr", "parse_file_statement_list",
-                                                "parse_file")]
-    for q in sorted(roots):
-        ks = P.get(q)
-        if ks is None:
-            ks = set(k for cx in contexts[q] for k in LK if ("!", False) in ai.outcomes(q, k, cx[0], cx[1]))
-        ctx.ob("R9.9", "entry:%s" % fn_key(q), not ks, "the entry point does not panic on its first terminal, whatever its kind" if not ks else
-               "the entry point panics when the first terminal is %s" % sorted(ks)[:5], ppf[q].where())
-    n_sites = 0
-    for g, ks in sorted(panicking.items()):
-        ctx.analysed(ppf[g])
-        for q in sorted(callers[g]):
-            f = ppf[q]
-            # the call sites in q are safe if q entered with any kind never reaches the panic on its unchanged prefix
-            # (then P[q] is empty) and if no point after a consumption, and no loop head, reaches it either
-            starts = set()
+    def guarded_panics(ai, rule, kinds, cand_extra, what):
+        """Routines that panic for some next-terminal kinds are reached only with the other kinds."""
+        LK = kinds
+        ppf = {p: f for p, f in pf.items() if p.startswith(PARSER)}
+        callers = defaultdict(set)
+        for p, f in ppf.items():
             for c in f.calls():
-                if c.target is not None and may_consume(f, c):
-                    starts.add(c.target)
-            loops = natural_loops(f)
-            starts |= set(loops.keys() if isinstance(loops, dict) else [h for h, _ in loops])
-            bad = {}
-            for cx in contexts[q]:
+                if c.path in ppf:
+                    callers[c.path].add(p)
+        cand = [p for p, f in ppf.items() if any((c.target is None and A.is_panic_call(c)) or c.name() in ("unwrap", "expect") for c in f.calls())] + list(cand_extra(ppf))
+        ctx.floor("%s: parser routines with an explicit panic, unwrap or expect%s" % (rule, what and " or a window pop"), len(cand), 8)
+        P = {}
+        work = deque(sorted(cand))
+        while work:
+            g = work.popleft()
+            if g in P or last_seg(g) == "take":
+                continue
+            ks = set()
+            for cx in contexts[g]:
                 for k in LK:
-                    if ("!", False) in ai.outcomes(q, k, cx[0], cx[1]):
-                        continue          # q itself panics on k from its entry: its own callers are checked in turn
-                    for bb in sorted(starts):
-                        if ("!", False) in ai.from_block(f, bb, k, cx[0], cx[1]):
-                            bad.setdefault(k, A._line(f, bb))
-            n_sites += 1
-            ctx.ob("R9.9", "guarded:%s<-%s" % (fn_key(g).split("::")[-1], fn_key(q)), not bad,
-                   "%s panics when entered with %d of the %d kinds (e.g. %s); in %s it is reached only with the other kinds, from the entry, after every consuming call and from every loop head" % (
-                       last_seg(g), len(ks), len(LK), sorted(ks)[:2], last_seg(q)) if not bad else
-                   "%s panics on %s and is reached with that kind in %s (from line %s)" % (last_seg(g), sorted(bad)[:4], last_seg(q), sorted(bad.values())[0]), f.where())
-    ctx.floor("call relations into routines that panic for some kinds", n_sites, 2)
-    ctx.notes.append("R9.9: routines that panic for some kinds on an unchanged look-ahead: %s" % {last_seg(g): len(ks) for g, ks in panicking.items()})
+                    if ("!", False) in ai.outcomes(g, k, cx[0], cx[1]):
+                        ks.add(k)
+            P[g] = ks
+            if ks:
+                for q in callers[g]:
+                    if q not in P:
+                        work.append(q)
+        panicking = {g: ks for g, ks in P.items() if ks}
+        consumes = {}
+
+        def may_consume(f, c):
+            """Can the call move the token window?  (`&mut Parser` receiver and, for routines of the parser, a summary
+            that consumes for some kind and context)"""
+            if c.callee.get("r") == "ptr":
+                return True
+            if not any(op_local(a) is not None and (f.local_ty(op_local(a)) or "").startswith("&mut " + PARSER) for a in c.args):
+                return False
+            g = c.path
+            if g not in pf:
+                return True
+            if g not in consumes:
+                consumes[g] = any(cons for cx in contexts[g] for k in LK for _, cons in ai.outcomes(g, k, cx[0], cx[1]))
+            return consumes[g]
+        roots = [q for q in ppf if last_seg(q) in ("parse_syntax_file", "parse_file_expr", "parse_token_stream", "parse_token_stream_expr", "parse_file_statement_list",
+                                                    "parse_file")]
+        for q in sorted(roots):
+            ks = P.get(q)
+            if ks is None:
+                ks = set(k for cx in contexts[q] for k in LK if ("!", False) in ai.outcomes(q, k, cx[0], cx[1]))
+            ctx.ob(rule, "entry:%s" % fn_key(q), not ks, ("the entry point does not panic on its first terminal, whatever its kind" if not what else
+                   "the entry point does not pop the token window (or panic) when the file is empty") if not ks else
+                   "the entry point panics%s when the first terminal is %s" % (what and " / pops the window", sorted(ks)[:5]), ppf[q].where())
+        n_sites = 0
+        for g, ks in sorted(panicking.items()):
+            ctx.analysed(ppf[g])
+            for q in sorted(callers[g]):
+                f = ppf[q]
+                # the call sites in q are safe if q entered with any kind never reaches the panic on its unchanged prefix
+                # (then P[q] is empty) and if no point after a consumption, and no loop head, reaches it either
+                starts = set()
+                for c in f.calls():
+                    if c.target is not None and may_consume(f, c):
+                        starts.add(c.target)
+                loops = natural_loops(f)
+                starts |= set(loops.keys() if isinstance(loops, dict) else [h for h, _ in loops])
+                bad = {}
+                for cx in contexts[q]:
+                    for k in LK:
+                        if ("!", False) in ai.outcomes(q, k, cx[0], cx[1]):
+                            continue          # q itself panics on k from its entry: its own callers are checked in turn
+                        for bb in sorted(starts):
+                            if ("!", False) in ai.from_block(f, bb, k, cx[0], cx[1]):
+                                bad.setdefault(k, A._line(f, bb))
+                n_sites += 1
+                ctx.ob(rule, "guarded:%s<-%s" % (fn_key(g).split("::")[-1], fn_key(q)), not bad,
+                       "%s %s when entered with %d of the %d kinds (e.g. %s); in %s it is reached only with the other kinds, from the entry, after every consuming call and from every loop head" % (
+                           last_seg(g), what or "panics", len(ks), len(LK), sorted(ks)[:2], last_seg(q)) if not bad else
+                       "%s %s on %s and is reached with that kind in %s (from line %s)" % (last_seg(g), what or "panics", sorted(bad)[:4], last_seg(q), sorted(bad.values())[0]), f.where())
+        ctx.floor("%s: call relations into routines that panic for some kinds" % rule, n_sites, 2)
+        ctx.notes.append("%s: routines that panic%s for some kinds on an unchanged look-ahead: %s" % (rule, what and " / pop the window", {last_seg(g): len(ks) for g, ks in panicking.items()}))
+        return panicking
+
+    guarded_panics(ai, "R9.9", LK, lambda ppf: [], "")
+
+    # R9.10 the token window is never popped at end of file.  `advance` pops the front of `current_terminals`; the end-of-
+    # file terminal is the last one the lexer produces, so popping it would leave the window empty and the next `peek()`
+    # (an index) or `advance` (an unwrap) would panic.  Same interpreter, with a pop at end of file counted as a panic,
+    # for the one kind TerminalEndOfFile; `take::<T>` pops as well (whatever T is).
+    ai_eof = A.ParserAI(F, names, eof_pop_panics=True)
+    poppers = lambda ppf: [p for p, f in ppf.items() if last_seg(p) not in A.BASE_CONSUMERS and last_seg(p) != "take"
+                           and any(c.path.startswith(PARSER + "::") and (c.name() in A.BASE_CONSUMERS or c.name() == "take") for c in f.calls())]
+    ppf_all = {p: f for p, f in pf.items() if p.startswith(PARSER)}
+    pop_routines = poppers(ppf_all)
+    ctx.floor("routines that pop the token window (call take, take_raw or advance)", len(pop_routines), 60)
+    at_eof = guarded_panics(ai_eof, "R9.10", [A.EOF_KIND], poppers, "pops the token window at end of file (or panics)")
+    ctx.ob("R9.10", "interpreter:clean", not (ai_eof.limits or ai_eof.unknown_calls),
+           "no state limit or uninterpretable call in the end-of-file exploration (%d summaries)" % len(ai_eof.memo) if not (ai_eof.limits or ai_eof.unknown_calls)
+           else "limits %s, unknown calls %s" % (sorted(last_seg(k[0]) for k in ai_eof.limits)[:4], sorted(last_seg(k[0]) for k in ai_eof.unknown_calls)[:4]), "")
+    _window_discipline(ctx, F)
 
     # R9.7 / R9.8 the same interpreter over the lexer: the look-ahead is the next character
     lai = A.LexerAI(F, names)
@@ -622,6 +646,95 @@ def _progress(ctx, names):
     ctx.ob("R9.7", "lexer-interpreter:complete", not lai.limits and not lai.unknown_calls and not lai.recursions,
            "no state limit, unknown lexer call or re-entry (%d summaries)" % len(lai.memo) if not (lai.limits or lai.unknown_calls or lai.recursions)
            else "limits %s unknown %s recursions %s" % (len(lai.limits), list(lai.unknown_calls)[:3], list(lai.recursions)[:3]), "")
+
+
+def _window_discipline(ctx, F):
+    """R9.10 (structure): the look-ahead window `Parser::current_terminals` always holds the end-of-file terminal once the
+    lexer produced it, because the only removal is the `pop_front` of `advance` (never at end of file: the interpreter
+    rule above), the window is filled when the parser is created, and `advance` refills before it pops."""
+    from .guards import op_prov
+    REMOVERS = {"pop_front", "pop_back", "clear", "truncate", "drain", "remove", "swap_remove_back", "swap_remove_front",
+                "split_off", "retain", "retain_mut", "resize", "resize_with", "take", "replace", "swap", "append"}
+    uses = defaultdict(list)
+    for p, f in F.fns.items():
+        if not f.body or f.crate != "cairo_lang_parser":
+            continue
+        for c in f.calls():
+            if not c.args:
+                continue
+            l = op_local(c.args[0])
+            if l is None or not (f.local_ty(l) or "").startswith("&"):
+                continue
+            if "f:current_terminals" in op_prov(f, c.args[0], 4):
+                uses[c.name()].append((f, c))
+    removers = [(nm, f, c) for nm, xs in uses.items() if nm in REMOVERS for f, c in xs]
+    pops = [(f, c) for nm, f, c in removers if nm == "pop_front"]
+    other = [(nm, f, c) for nm, f, c in removers if nm != "pop_front"]
+    ctx.ob("R9.10", "window:removals", len(pops) == 1 and not other,
+           "the only removal from the look-ahead window is one pop_front (in %s); methods used on it: %s" % (
+               last_seg(pops[0][0].root) if pops else "?", {k: len(v) for k, v in sorted(uses.items())}) if len(pops) == 1 and not other else
+           "the look-ahead window is shrunk by %s" % sorted((nm, last_seg(f.root)) for nm, f, c in removers), pops[0][1].where() if pops else "")
+    ctx.floor("methods applied to Parser::current_terminals", sum(len(v) for v in uses.values()), 5)
+    pushers = {f.path for nm in ("push_back",) for f, c in uses.get(nm, [])}
+    # the window is assigned only when the parser is built, and the constructor fills it before returning
+    writes = []
+    builders = []
+    for p, f in F.fns.items():
+        if not f.body or f.crate != "cairo_lang_parser":
+            continue
+        for i, j, st in f.stmts():
+            if st[0] != "a":
+                continue
+            if st[2][0] == "agg" and st[2][1] == "adt" and st[2][2] == PARSER:
+                builders.append(f)
+            dst = st[1]
+            if not isinstance(dst, int) and dst[1]:
+                e = dst[1][-1]
+                if isinstance(e, list) and e[0] == "f" and e[2] in ("current_terminals", "eof") and len(e) > 3 and e[3] == PARSER:
+                    writes.append((e[2], f, st))
+    ok_b = len(builders) == 1
+    filled = False
+    if ok_b:
+        nf = builders[0]
+        fills = [c for c in nf.calls() if c.path in pushers]
+        filled = bool(fills) and all(any(nf.dominates(c.bb, r) for c in fills) for r in nf.return_blocks())
+    ctx.ob("R9.10", "window:filled-at-construction", ok_b and filled,
+           "Parser is built in one place (%s), which fills the look-ahead window before it returns" % (last_seg(builders[0].root) if builders else "?") if ok_b and filled else
+           "Parser is built in %s; a return of the constructor is not dominated by a call that fills the window" % sorted(last_seg(b.root) for b in builders),
+           builders[0].where() if builders else "")
+    win_writes = [(fld, f) for fld, f, st in writes if fld == "current_terminals"]
+    ctx.ob("R9.10", "window:not-reassigned", not win_writes, "current_terminals is never assigned outside the constructor" if not win_writes else
+           "current_terminals is assigned in %s" % sorted(last_seg(f.root) for _, f in win_writes), "")
+    # `eof` is set only where a terminal is pushed, from a comparison of its kind with TerminalEndOfFile
+    bad_eof = []
+    n_eof = 0
+    for fld, f, st in writes:
+        if fld != "eof":
+            continue
+        n_eof += 1
+        toks = set()
+        for o in rvalue_operands(st[2]):
+            toks |= op_prov(f, o, 8)
+        from_cmp = ("c:eq" in toks or "op:Eq" in toks) and "f:kind" in toks
+        names_eof = "TerminalEndOfFile" in json.dumps([f.d.get("body"), f.d.get("promoted")])
+        if not (f.path in pushers and from_cmp and names_eof):
+            bad_eof.append(last_seg(f.root))
+    ctx.ob("R9.10", "window:eof-flag", n_eof >= 1 and not bad_eof,
+           "Parser::eof is written only where a terminal is pushed on the window, from `kind == TerminalEndOfFile` (%d write(s))" % n_eof if n_eof and not bad_eof else
+           "Parser::eof is written in %s without deriving from a comparison of the pushed terminal's kind with TerminalEndOfFile" % bad_eof, "")
+    # advance refills to at least 3 before it pops
+    if pops:
+        af, pc = pops[0]
+        refills = [c for c in af.calls() if c.path in pushers and af.dominates(c.bb, pc.bb) and c.bb != pc.bb]
+        depth = None
+        for c in refills:
+            for a in c.args[1:]:
+                k = op_const(a)
+                if k and k[0] == "int":
+                    depth = k[1]
+        ctx.ob("R9.10", "window:refill-before-pop", bool(refills) and depth is not None and depth >= 3,
+               "%s refills the window to %s terminals (or to the end of file) before it pops: two look-aheads stay valid unless the next terminal is the end of file" % (last_seg(af.root), depth)
+               if refills and depth is not None and depth >= 3 else "the pop in %s is not dominated by a refill to at least 3 terminals (found %s)" % (last_seg(af.root), depth), pc.where())
 
 
 def _controls(ctx, F, names, summaries, pfns):
